@@ -48,7 +48,7 @@ SCENARIOS_OF = {
     "ThreadPool": ["ThreadPool::run+stop", "ThreadPool::run"],
     "BlockingQueue": ["BlockingQueue"],
     "BoundedBlockingQueue": ["BoundedBlockingQueue"],
-    "CountDownLatch": ["CountDownLatch"],
+    "CountDownLatch": ["CountDownLatch::shortlived", "CountDownLatch"],
     "AsyncLogging": ["AsyncLogging::append", "LOG+AsyncLogging"],
     "Logging": ["LOG", "LOG+AsyncLogging"],
 }
